@@ -1,5 +1,6 @@
 import Anysystem.Props.C17
 import Anysystem.Proofs.SimLogInv
+import Anysystem.Proofs.SimTraceInv
 #print axioms Anysystem.Sim.send_logged_once
 #print axioms Anysystem.Sim.send_same_node
 #print axioms Anysystem.Sim.send_cut_dropped
@@ -18,3 +19,15 @@ import Anysystem.Proofs.SimLogInv
 #print axioms Anysystem.Sim.LogInv.crashNode
 #print axioms Anysystem.Sim.LogInv.recoverNode
 #print axioms Anysystem.Sim.readLocal_returns_outbox
+#print axioms Anysystem.Sim.TraceInv.init
+#print axioms Anysystem.Sim.TraceInv.sent_ids_nodup
+#print axioms Anysystem.Sim.TraceInv.sendMessage
+#print axioms Anysystem.Sim.TraceInv.step
+#print axioms Anysystem.Sim.TraceInv.steps
+#print axioms Anysystem.Sim.TraceInv.sendLocal
+#print axioms Anysystem.Sim.TraceInv.readLocal
+#print axioms Anysystem.Sim.TraceInv.crashNode
+#print axioms Anysystem.Sim.TraceInv.recoverNode
+#print axioms Anysystem.Sim.TraceInv.addProcess
+#print axioms Anysystem.Sim.TraceInv.frame
+#print axioms Anysystem.Sim.single_fate_no_dupl
